@@ -126,6 +126,13 @@ func makeProgram(r *hx.Rand, tg *tree.Gen, g int, avoidPoolFail, avoidPoolFree b
 		calls = calls[:1+r.Intn(len(calls)-1)]
 	}
 
+	// a handle that outlived its message: one program in four with a message root calls through the
+	// root handle after Build. The library answers "closed writer" and, above all, the call never
+	// reaches the pooled writer, which by then may serve another goroutine.
+	if kind == "valid" && calls[0] == "msg" && calls[len(calls)-1] == "build@0" && r.Intn(4) == 0 {
+		calls = append(calls, "f@0 9 i32 5")
+	}
+
 	// the variant must be able to run the program's root
 	var variant int
 	for {
